@@ -133,13 +133,17 @@ pub struct Drv { child: Child, sin: ChildStdin, sout: BufReader<ChildStdout>, pu
 impl Drv {
     pub fn spawn() -> Option<Drv> {
         let path = std::env::var("A2DRV").unwrap_or("/verif/lean/.lake/build/bin/a2drv".to_string());
-        let mut child = Command::new(path).stdin(Stdio::piped()).stdout(Stdio::piped()).spawn().ok()?;
+        let mut cmd = Command::new(path);
+        cmd.stdin(Stdio::piped()).stdout(Stdio::piped());
+        die_with_parent(&mut cmd);
+        let mut child = cmd.spawn().ok()?;
         let sin = child.stdin.take()?;
         let sout = BufReader::new(child.stdout.take()?);
         Some(Drv { child, sin, sout, requests: 0 })
     }
     pub fn ask(&mut self, req: &str) -> String {
         self.requests += 1;
+        if let Ok(p) = std::env::var("A2V_LOG_REQ") { use std::io::Write as W2; if let Ok(mut f) = std::fs::OpenOptions::new().create(true).append(true).open(p) { let _ = writeln!(f, "{}", req); } }
         if writeln!(self.sin, "{}", req).is_err() { return "driver-dead".to_string(); }
         let _ = self.sin.flush();
         let mut line = String::new();
@@ -370,7 +374,7 @@ pub struct FsRun<'a> { pub ctx: &'a mut Ctx, pub focus: Focus }
 
 pub fn run(ctx: &mut Ctx, focus: Focus) {
     let cfgs = all_cfgs(ctx.tier_thorough);
-    let n_hist = match focus { Focus::C06 => ctx.n(60, 600), _ => ctx.n(90, 1500) };
+    let n_hist = match focus { Focus::C06 => ctx.n(120, 1200), _ => ctx.n(200, 3000) };
     let mut rng = Rng::new(ctx.seed ^ (focus as u64) << 32);
     let mut drv = Drv::spawn();
     if drv.is_none() { ctx.out.count("driver-missing"); }
@@ -467,10 +471,10 @@ fn one_history(ctx: &mut Ctx, focus: Focus, idx: usize, cfg: &VolCfg, steps: usi
         if use_lean {
             if let Some(d) = drv.as_deref_mut() {
                 if let Some(e) = lean_sync(d, &mut tie, &mut w) { vd.out.count(&format!("lean-sync-error:{}", e)); }
-                else {
-                    if !desc.starts_with("skip") && !desc.starts_with("ABORT") { lean_step(d, &mut w, &mut vd, &lean_op, &desc); }
-                    lean_check(d, &mut w, &mut vd, &desc, Some(step));
-                }
+                else if !desc.starts_with("skip") && !desc.starts_with("ABORT") {
+                    let summary = lean_step(d, &mut w, &mut vd, &lean_op, &desc);
+                    lean_check_answer(&summary, &mut w, &mut vd, &desc);
+                } else { lean_check(d, &mut w, &mut vd, &desc, Some(step)); }
             }
         }
     }
@@ -555,7 +559,9 @@ fn need_units(w: &World, r: &RefFile) -> usize {
         Fs::Dos33 | Fs::Dos32 => n + (end + 121) / 122,
         Fs::Prodos => { if end <= 1 { 1 } else if end <= 256 { n + 1 } else { let idx: BTreeSet<usize> = r.chunks.keys().map(|k| k / 256).collect(); n + idx.len().max(1) + 1 } }
         Fs::Pascal => end,
-        Fs::Cpm2 | Fs::Cpm3 | Fs::Fat => usize::MAX, // computed from block/cluster size by the caller (chunk != unit)
+        // the chunk is the allocation block / cluster; CP/M extents and FAT directory slots are counted separately by a2kit
+        Fs::Cpm2 | Fs::Cpm3 => n,
+        Fs::Fat => end,
     }
 }
 
@@ -904,8 +910,14 @@ fn check_reload(w: &mut World, vd: &mut Verdicts, rng: &mut Rng) {
 }
 
 /// refinement check of the step just taken: the Lean spec must allow (previous reading, op, result, current reading)
-fn lean_step(drv: &mut Drv, w: &mut World, vd: &mut Verdicts, lean_op: &str, desc: &str) {
-    let ans = drv.ask(&format!("fs step {}", lean_op));
+fn lean_step(drv: &mut Drv, w: &mut World, vd: &mut Verdicts, lean_op: &str, desc: &str) -> String {
+    let full = drv.ask(&format!("fs step {}", lean_op));
+    let (ans, summary) = match full.split_once(" ;; ") { Some((a, b)) => (a.to_string(), b.to_string()), None => (full.clone(), String::from("?")) };
+    lean_step_verdict(&ans, w, vd, desc);
+    summary
+}
+
+fn lean_step_verdict(ans: &str, w: &mut World, vd: &mut Verdicts, desc: &str) {
     let hist = w.hist.clone();
     if ans == "ok" {
         for f in [Focus::C01, Focus::C02, Focus::C03, Focus::C05, Focus::C19] { vd.v(f, true, "step-allowed-by-spec", "", &[]); }
@@ -930,6 +942,10 @@ fn lean_step(drv: &mut Drv, w: &mut World, vd: &mut Verdicts, lean_op: &str, des
 /// ask the Lean reader for its independent reading and compare with what a2kit reports
 fn lean_check(drv: &mut Drv, w: &mut World, vd: &mut Verdicts, last: &str, _step: Option<usize>) {
     let ans = drv.ask("fs read");
+    lean_check_answer(&ans, w, vd, last);
+}
+
+fn lean_check_answer(ans: &str, w: &mut World, vd: &mut Verdicts, last: &str) {
     let hist = w.hist.clone();
     if ans.starts_with("bad ") {
         // after a failed operation only soundness is required; after a successful one, also
